@@ -403,6 +403,24 @@ def treeCache (root : Item ι V) (limit : Nat) : Option Nat → Option (Item ι 
 
 end
 
+/-! ### Depth (every operation of the real tree recurses once per level) -/
+
+section
+variable {ι V : Type}
+mutual
+/-- Number of levels of the tree: `Empty` 0, a leaf 1, a node 1 + its deepest child.  `Item::{insert, find, get, remove,
+retain, len, cache, trace}` and their `Node::` / `Leaf::` counterparts call themselves once per level on the way down, so this
+is the recursion depth of every operation (DESIGN §6-D26: a tree built from thousands of chained prefixes overflows the stack). -/
+def Item.depth : Item ι V → Nat
+  | .empty _ => 0
+  | .leaf _ _ => 1
+  | .node _ cs => 1 + depthL cs
+def depthL : List (Item ι V) → Nat
+  | [] => 0
+  | c :: cs => max (Item.depth c) (depthL cs)
+end
+end
+
 /-! ### `trace.rs`: `trace(haystack)` -/
 
 /-- `trace.rs::Trace`. -/
